@@ -236,11 +236,38 @@ type ConnInfo struct {
 	AutoCom bool
 	InTx    bool
 	Used    bool
+	// Init describes how much of the per-connection initialisation already happened (it
+	// decides which backend calls the next use will make): "d" = database selected,
+	// "v" = session variables stored, "s" = a SET statement is still owed.
+	Init string
 }
 
 func (c *Conn) info() ConnInfo {
+	init := ""
+	if c.db != "" {
+		init += "d"
+	}
+	if c.varsSet {
+		init += "v"
+	}
+	if c.needSet {
+		init += "s"
+	}
 	return ConnInfo{ID: c.ID, Pool: c.pool.Name(), Slice: c.pool.Slice, Role: c.pool.Role, Gen: c.pool.Gen, Lease: c.Lease,
-		Holder: c.Holder, Out: c.Out, Closed: c.Closed, AutoCom: c.AutoCom, InTx: c.InTx, Used: c.Used}
+		Holder: c.Holder, Out: c.Out, Closed: c.Closed, AutoCom: c.AutoCom, InTx: c.InTx, Used: c.Used, Init: init}
+}
+
+// Idle returns, per pool name, the idle connections in the order Get will hand them out.
+func (w *World) Idle() map[string][]ConnInfo {
+	w.mu.Lock()
+	defer w.mu.Unlock()
+	out := map[string][]ConnInfo{}
+	for _, p := range w.pools {
+		for _, c := range p.idle {
+			out[p.Name()] = append(out[p.Name()], c.info())
+		}
+	}
+	return out
 }
 
 // Conns returns the state of every connection ever created, by id.
